@@ -36,6 +36,7 @@ OBS = {
     'Trace_Conjoin': ['h.rules', 'h.start', 'out', 'h.rules.*.edges', 'h.rules.*.ext'],
     'Trace_Session': ['events.*.post', 'events.*.res', 'events.*.out'],
     'Trace_Scc': ['comps', 'comps.*', 'verts', 'edges', 'keys', 'out'],
+    'Trace_AxisAlg': ['ok', 'sg.*', 'gs.*', 'off', 'st.*.c', 'ix.*.ok', 'numel', 'zero', 'out'],
     'Trace_Domains': ['obs.size', 'obs.num.*', 'obs.den.*', 'obs.con.*', 'eq', 'out', 'arity', 'app.*', 'shape', 'second_rejected'],
 }
 INTMAX = 900000
